@@ -19,10 +19,10 @@ def run(tier, seed):
     exes = core.build_many(spec())
     js = []
     for i in range(8 if q else 16):
-        js.append(core.Job(exes[("fmt_direct", "dbg")], ["--mode", "pat", "--seed", seed * 1000 + i, "--cases", 25000 if q else 120000],
+        js.append(core.Job(exes[("fmt_direct", "dbg")], ["--mode", "pat", "--seed", seed * 1000 + i, "--cases", 100000 if q else 500000],
                            variant="dbg", timeout=3600, tag="fmt_direct.pat", prop=PROP))
     for i in range(4 if q else 12):
-        js.append(core.Job(exes[("fmt_direct", "asan")], ["--mode", "pat", "--seed", seed * 1000 + 100 + i, "--cases", 6000 if q else 30000],
+        js.append(core.Job(exes[("fmt_direct", "asan")], ["--mode", "pat", "--seed", seed * 1000 + 100 + i, "--cases", 20000 if q else 100000],
                            variant="asan", timeout=3600, tag="fmt_direct.pat.asan", prop=PROP))
     from vlib import e2e
     if 'lines' in e2e.PLANS:
